@@ -1,12 +1,18 @@
 -- GENERATED: axiom audit of the property theorems of C57
 import SquidModel.Properties.C57
+#print axioms SquidModel.C57.current_consts_ok
 #print axioms SquidModel.C57.rebuild_terminates
+#print axioms SquidModel.C57.rebuild_crash_classes
+#print axioms SquidModel.C57.no_stolen_slot_crash_partial
+#print axioms SquidModel.C57.no_all_ones_crash_fixed
+#print axioms SquidModel.C57.repaired_rebuild_never_crashes
 #print axioms SquidModel.C57.readable_entries_intact
 #print axioms SquidModel.C57.readable_size_exact
 #print axioms SquidModel.C57.readable_chains_disjoint
 #print axioms SquidModel.C57.readable_chain_matches_disk
 #print axioms SquidModel.C57.readable_chain_own_slots_partial
 #print axioms SquidModel.C57.readable_chain_own_slots_fixed
+#print axioms SquidModel.C57.repaired_source_satisfies_property
 #print axioms SquidModel.C57.short_entry_counterexample
 #print axioms SquidModel.C57.short_entry_fixed
 #print axioms SquidModel.C57.stolen_slot_counterexample
